@@ -190,3 +190,60 @@ package soyhtml
 //@   ghost recd bool = false
 //@   at call recover#0 after set recd = res != nil
 //@   ensures[assigns-error] recd ==> *errp != nil
+
+// range(): the materialisation loop terminates for every argument list
+// (a non-positive increment is rejected before the loop). Type assertions on
+// the arguments may panic; evalFunc's recover turns that into a render error.
+//@ func funcRange
+//@   props C06 C01
+//@   nosafety
+//@   ensures[bounded] typeis(result, data.List)
+//@   loop 0
+//@     invariant increment > 0
+//@     decreases limit - index
+
+// Intermediate recover sites never swallow a panic: they return normally only
+// when nothing was recovered (otherwise they end in errorf, which re-panics).
+//@ func (*state).evalPrint$1$1
+//@   props C06
+//@   handler
+//@   nosafety
+//@   ghost recd bool = false
+//@   at call recover#0 after set recd = res != nil
+//@   ensures[never-swallows] !recd
+//@ func (*state).evalCall$1
+//@   props C06
+//@   handler
+//@   nosafety
+//@   ghost recd bool = false
+//@   at call recover#0 after set recd = res != nil
+//@   ensures[never-swallows] !recd
+//@ func (*state).evalFunc$1
+//@   props C06
+//@   handler
+//@   nosafety
+//@   ghost recd bool = false
+//@   at call recover#0 after set recd = res != nil
+//@   ensures[never-swallows] !recd
+
+// errorf never returns and cannot fail before raising its panic.
+//@ func (*state).errFromNode
+//@   props C06
+//@   ensures[non-nil] result != nil
+//@ func (*state).callAnnotation
+//@   props C06
+
+// Render entry points: everything that can panic before the recover handler is
+// installed is proved panic-free (under the registry invariant that
+// Registry.Add maintains); every panic raised afterwards reaches errRecover,
+// which is proved above to complete and to assign a non-nil error.
+//@ func (Renderer).Execute
+//@   props C06
+//@   recoverby (*state).errRecover
+//@   modifies *
+//@   requires[registry-built-by-Add] t.tofu != nil && t.tofu.registry != nil ==> registryOK(t.tofu.registry)
+
+//@ func EvalExpr
+//@   props C06
+//@   recoverby (*state).errRecover
+//@   modifies *
